@@ -3,22 +3,29 @@ import flowpaths.utils.dominators as dominators
 from queue import Queue
 
 def find_path(adj_dict, s, t):
-    """Find a path from s to t using DFS."""
-    def dfs_path(node, path: list, visited: set):
-        if node == t:
-            return True
-        visited.add(node)
-        for neighbor in adj_dict[node]:
+    """Find a path from s to t using DFS (iterative: the graph may be deeper than the recursion limit)."""
+    path = [s]
+    if s == t:
+        return path
+    visited = {s}
+    # one iterator over the neighbors per node on the current path: same visiting order as the recursive formulation
+    iterators = [iter(adj_dict[s])]
+    while iterators:
+        advanced = False
+        for neighbor in iterators[-1]:
             if neighbor not in visited:
                 path.append(neighbor)
-                if dfs_path(neighbor, path, visited):
-                    return True
-                path.pop()  # Backtrack if this path doesn't lead to t
-        return False
-    
-    path = [s]
-    visited = set()
-    dfs_path(s, path, visited)
+                if neighbor == t:
+                    return path
+                visited.add(neighbor)
+                iterators.append(iter(adj_dict[neighbor]))
+                advanced = True
+                break
+        if not advanced:
+            # Backtrack if this node doesn't lead to t (the start node itself stays on the path)
+            iterators.pop()
+            if len(path) > 1:
+                path.pop()
     return path
 
 def find_idom(adj_dict, s, t) -> list:
